@@ -22,12 +22,15 @@ Proof. unfold dmg_weights. destruct src_is_modelled as [_ ->]. reflexivity. Qed.
 
 (* ---------- the getter vis_flags_weights selects, on each kind of low-level result ---------- *)
 Lemma getter_stored : forall k s, vfw_getter k s (LArray true true) = Ret Stored.
-Proof. intros k s. destruct vfw_getters as [G1 G2]. destruct k; [rewrite G1|rewrite G2]; reflexivity. Qed.
+Proof.
+  intros k s. pose proof (or_default_spec s (LArray true true)) as S. rewrite get_chunk_array in S. cbn in S.
+  destruct S as (A & B & _). destruct vfw_getters as [G1 G2]. destruct k; [rewrite G1|rewrite G2]; assumption.
+Qed.
 
 Lemma getter_mismatch : forall k s so dk, negb so || negb dk = true -> vfw_getter k s (LArray so dk) = Raise K_BadChunk.
 Proof.
   intros k s so dk H.
-  assert (G : get_chunk s (LArray so dk) = Raise K_BadChunk) by (unfold get_chunk; rewrite H; reflexivity).
+  assert (G : get_chunk s (LArray so dk) = Raise K_BadChunk) by (rewrite get_chunk_array, H; reflexivity).
   destruct (bad_or_unavailable_never_filled s _ _ G (or_introl eq_refl)) as [A B].
   destruct vfw_getters as [G1 G2]. destruct k; [rewrite G1|rewrite G2]; assumption.
 Qed.
@@ -57,7 +60,7 @@ Proof.
   { destruct vfw_getters as [G1 G2]. destruct k; [rewrite G1 in H|rewrite G2 in H]; auto. }
   destruct (filler_only_for_notfound s lo v Hv) as [[-> _]|[_ [e [He Hi]]]]; [discriminate|].
   destruct lo as [so dk|e0].
-  - unfold get_chunk in He. destruct (negb so || negb dk); inversion He; subst e. vm_compute in Hi. discriminate.
+  - rewrite get_chunk_array in He. destruct (negb so || negb dk); inversion He; subst e. vm_compute in Hi. discriminate.
   - cbn [get_chunk] in He. inversion He; subst e. exists e0. split; auto.
 Qed.
 
